@@ -357,6 +357,39 @@ def run(ctx):
                     ctx.rule('R-VACUOUS', 'no sniffer accepts a file because there was nothing to compare (zero-iteration path of a matching loop)')
                     ctx.violation(Finding('R-VACUOUS', m.relpath, q, lp, 'the matching loop over zip(.., %s) returns False on a mismatch and True otherwise; when %s is empty (the line is blank or the file is shorter) '
                                           'the loop body never runs and the file is accepted: this reader claims every short text file ahead of its real reader' % (fromfile[0], fromfile[0])))
+            # memoisation: the sniffer, or a function of this module it calls (3 levels), remembers results between calls - a cache keyed by
+            # the path string answers for the content the path had at the first probe
+            seenf, work = set(), [(fn, 0)]
+            while work:
+                f_, depth = work.pop()
+                if id(f_) in seenf:
+                    continue
+                seenf.add(id(f_))
+                for d_ in f_.decorator_list:
+                    dt = (dotted(d_.func) if isinstance(d_, ast.Call) else dotted(d_)) or ''
+                    if 'cache' in dt.lower() or 'memo' in dt.lower():
+                        bad.append((f_.body[0] if f_ is not fn else fn.body[0], 'calls %s, which is memoised (@%s): the answer for a path is remembered after the file behind it has changed'
+                                    % (f_.name, dt) if f_ is not fn else 'is memoised (@%s)' % dt))
+                if f_ is not fn:
+                    g2 = set(n for st in iter_stmts(f_.body) if isinstance(st, ast.Global) for n in st.names)
+                    for st in iter_stmts(f_.body):
+                        for t in (st.targets if isinstance(st, ast.Assign) else [st.target] if isinstance(st, (ast.AugAssign, ast.AnnAssign)) else []):
+                            b = t
+                            while isinstance(b, (ast.Subscript, ast.Attribute)):
+                                b = b.value
+                            if isinstance(b, ast.Name) and ((isinstance(t, ast.Name) and t.id in g2) or (not isinstance(t, ast.Name) and b.id in m.assigns and b.id not in _locals(f_))):
+                                bad.append((st, 'calls %s, which stores into module-level %s' % (f_.name, b.id)))
+                if depth < 3:
+                    for c in walk_expr(f_):
+                        if isinstance(c, ast.Call):
+                            tgt = None
+                            if isinstance(c.func, ast.Name) and c.func.id in m.functions:
+                                tgt = m.functions[c.func.id]
+                            elif isinstance(c.func, ast.Attribute) and isinstance(c.func.value, ast.Name) and c.func.value.id in (clsparam, 'self', 'cls') \
+                                    and (clsname + '.' + c.func.attr) in m.functions and c.func.attr != 'isMine':
+                                tgt = m.functions[clsname + '.' + c.func.attr]
+                            if tgt is not None:
+                                work.append((tgt, depth + 1))
             if bad:
                 for st, why in bad:
                     ctx.violation(Finding('R-ISMINEPURE', m.relpath, q, st,
